@@ -2,6 +2,7 @@ import Sonic.Spec.Merge
 import Sonic.Model.Schema
 import Sonic.Proofs.MergeDecEq
 import Sonic.Proofs.MergeSchema
+import Sonic.Proofs.MergeHandler
 
 /-!
 # C19 — `ParseSchema` updates exactly the members the existing document declares
@@ -20,6 +21,7 @@ import Sonic.Proofs.MergeSchema
 -/
 namespace Sonic.Props.C19
 open Sonic.Spec Sonic.Spec.Merge Sonic.Model.Schema Sonic.Proofs.MergeSchema Sonic.Proofs.MergeDecEq
+open Sonic.Proofs.MergeHandler
 
 /-! ## the model against the statement -/
 
@@ -100,5 +102,57 @@ theorem C19_repeat (e t t' : JVal) (he : noDupKeys e = true) (ht : noDupKeys t =
     apply (apply e t) t' = schema (schema e t) t' := by
   rw [apply_eq_schema e t he ht hn]
   exact apply_eq_schema _ t' (noDup_schema e t he ht) ht' hn'
+
+/-! ## the literal SAX state machine -/
+
+/-- The handler with its node stack, `cur_node_`/`parent_node_` paths, `parent_st_`, `found_count_st_` (16 initial
+    elements) and `found_node_count_`, driven by `parseImpl`'s callback sequence (with the `CheckKeyReturn`
+    protocol) for the text value `t`, finishes with `err = 0`, without any fault of the checked model (no null or
+    dangling node pointer, no read of a dead stack slot, no `pop_back` on an empty vector), and leaves exactly
+    `apply e t` — for EVERY existing document `e` and EVERY text value `t` (duplicate keys included on both sides),
+    provided the node stack has room for the text's value: `nodes t ≤ cap`, where `cap = max(16, len/2 + 2)` is what
+    `SetUp` allocates for a text of `len` bytes (a text spelling `t` has at least `2 * nodes t - 1` bytes). -/
+theorem C19_handler_refines (cap : Nat) (e t : JVal) (hcap : nodes t ≤ cap) :
+    handler cap e t = .ok (0, apply e t) :=
+  handler_eq_apply cap e t hcap
+
+/-- the machine against the statement (corollary) -/
+theorem C19_handler_eq_spec_partial (cap : Nat) (e t : JVal) (hcap : nodes t ≤ cap) (he : noDupKeys e = true)
+    (ht : noDupKeys t = true) (hn : NoEmptyOverNonEmpty e t = true) : handler cap e t = .ok (0, schema e t) := by
+  rw [C19_handler_refines cap e t hcap, apply_eq_schema e t he ht hn]
+
+/-! ## non-vacuity: the regression pairs of the fixed defects, through the literal machine -/
+
+private def u (n : Nat) : JVal := .num (.uint n)
+
+/-- F15: `{"e":0,"d":{"a":[],"e":0,"c":null},"a":0}` + `{"d":{"e":1,"a":{"c":false}},"a":2,"e":-2}` -/
+def f15Existing : JVal :=
+  .obj [([101], u 0), ([100], .obj [([97], .arr []), ([101], u 0), ([99], .null)]), ([97], u 0)]
+def f15Text : JVal :=
+  .obj [([100], .obj [([101], u 1), ([97], .obj [([99], .bool false)])]), ([97], u 2), ([101], .num (.sint (-2)))]
+
+example : handler 16 f15Existing f15Text =
+    .ok (0, .obj [([101], .num (.sint (-2))),
+                  ([100], .obj [([97], .obj [([99], .bool false)]), ([101], u 1), ([99], .null)]),
+                  ([97], u 2)]) := by decide
+example : handler 16 f15Existing f15Text = .ok (0, schema f15Existing f15Text) := by decide
+example : noDupKeys f15Existing = true ∧ noDupKeys f15Text = true ∧
+    NoEmptyOverNonEmpty f15Existing f15Text = true ∧ nodes f15Text ≤ 16 := by decide
+
+/-- F10: `{"k":{"x":5}}` + `{"k":[{"x":1}]}` -/
+def f10Existing : JVal := .obj [([107], .obj [([120], u 5)])]
+def f10Text : JVal := .obj [([107], .arr [.obj [([120], u 1)]])]
+
+example : handler 16 f10Existing f10Text = .ok (0, f10Text) := by decide
+example : schema f10Existing f10Text = f10Text := by decide
+
+/-- repeated application through the machine: `{"a":1,"b":{"c":[1]}}`, then `{"b":{"c":{"d":null}},"z":0}`, then
+    `{"b":{"c":{"d":[true]}}}` -/
+example :
+    (match handler 16 (.obj [([97], u 1), ([98], .obj [([99], .arr [u 1])])])
+            (.obj [([98], .obj [([99], .obj [([100], .null)])]), ([122], u 0)]) with
+     | .ok (_, d) => handler 16 d (.obj [([98], .obj [([99], .obj [([100], .arr [.bool true])])])])
+     | .error f => .error f)
+    = .ok (0, .obj [([97], u 1), ([98], .obj [([99], .obj [([100], .arr [.bool true])])])]) := by decide
 
 end Sonic.Props.C19
